@@ -44,7 +44,15 @@ RULE = ("(supporting tests) corpus from one PRNG: the repository's module sample
         "0xffff,0x10000,0x7fffffff,0x80000000,0xffffffff, max, max-1, len-1, len, len+1, remaining-1, remaining, remaining+1 and c-1, c, c+1 for "
         "every count c found in the same file (NumberOfFunctions, NumberOfNames, section / symbol / row counts ...); (c) exhaustive: every offset "
         "of every sample of at most 2100 bytes (and a synthetic ZIP) as u16 and u32 with a reduced value set, sampled down to the budget in the "
-        "quick tier. A failing mutation is kept as a case with the field name, offset, width and value. Non-trivial: distinct (label, output size).")
+        "quick tier; (d) structural mutations around every located field and every magic tag found by search (Rich, PE, PK.., BSJB, OLE root entry, code-signature "
+        "blobs, RSDS, VS_VERSION_INFO): the file ends at / in the middle of / 1-3 bytes behind the field; every size field (optional header, data directories, "
+        "certificates, streams, load commands, LNK lists and blocks, ZIP names / extras / comments, DEX sections ...) is set so that its structure ends at / in / "
+        "behind every field inside it; for every pointer field (e_lfanew, section raw pointers, directory RVAs, export tables, resource entries, metadata and "
+        "stream offsets, e_phoff / e_shoff / sh_offset / p_offset, fat arch offsets, symoff / stroff / dataoff, LinkInfo offsets, DEX table and string offsets, "
+        "ZIP central directory and local header offsets) the bytes between a preceding field or tag and the pointer's target are deleted and the pointer adjusted, "
+        "so that the target structure starts right behind that field. Amplification inputs (N references to ONE large item): DEX methods sharing a 255-parameter "
+        "proto over one long string, ELF PT_DYNAMIC headers sharing one table, a deflated ZIP member of 512 MiB of zeros (vbaProject.bin), Mach-O chained imports / "
+        "ELF symbols sharing one maximal name, an OLE/CF directory chain through every sector. A failing mutation is kept as a case with the field name, offset, width and value. Non-trivial: distinct (label, output size).")
 
 SAMPLES = "c11-samples"
 
@@ -157,7 +165,9 @@ MANIFEST = {
                    "Repaired after this check found them (c84671ba, 37a1e029): quartic / cubic walk of self-referential PE resource directories. "
                    "Quadratic memory, repaired (daf5ea9e, 07806781; patches fixes/C11-1, C11-2): ELF section/symbol names, Mach-O symtab and "
                    "chained-fixups names read without a length limit, Mach-O export names accumulated along a chain-shaped trie. All reproductions "
-                   "stay in the corpus as regression inputs and must meet the time and memory bounds."),
+                   "stay in the corpus as regression inputs and must meet the time and memory bounds. Known findings (memory = N references x one large item, inputs "
+                   "built by the amplification generators, patches fixes/C11-3,4,5,7): DEX items copying shared strings, ELF PT_DYNAMIC duplication, unbounded inflate "
+                   "of a ZIP member, Mach-O chained imports sharing one name; fixes/C11-6 removes a quadratic cycle check in olecf that stays below the bounds."),
     "technique": "Coq proofs over an exact model of rva_to_offset and over capped-loop skeletons with source-generated caps + resource-limited differential tests in child processes",
     "design_ref": "DESIGN.md section 4, C11",
 }
